@@ -8,5 +8,6 @@ INVARIANT ViewShape
 INVARIANT Restriction
 INVARIANT ProjectionAgrees
 INVARIANT InsideIsComplete
+INVARIANT AlgebraLaws
 PROPERTY RcKeepsReading
 PROPERTY SliceOnlyLoses
